@@ -1,14 +1,349 @@
-(* Proofs/AStarFacts.v — facts about the A* model (Model/AStar.v). *)
+(* Proofs/AStarFacts.v — facts about the A* model (Model/AStar.v):
+   forward-pass invariant, validity of the chain rebuilt by the backward pass, start = goal,
+   soundness of the chain checker. *)
 From Coq Require Import List ZArith Bool Arith Lia ZifyBool.
 From Koala Require Import Model.AStar.
 Import ListNotations.
 Open Scope Z_scope.
 
-(* start = goal: the first pop is the goal, the backward pass does not iterate:
-   the result is ([start], []) for every positive budget, both stopping modes *)
-Lemma as_path_start_eq_goal :
-  forall adj h s early n, as_path adj h s s early (S n) = AS_Path [s] [] None.
+(* ------------------------------------------------------------------ association lists *)
+Lemma as_lookup_cons_eq : forall (A : Type) k (v : A) l, as_lookup k ((k, v) :: l) = Some v.
+Proof. intros. simpl. now rewrite Nat.eqb_refl. Qed.
+Lemma as_lookup_cons_neq : forall (A : Type) k k' (v : A) l, k <> k' -> as_lookup k ((k', v) :: l) = as_lookup k l.
+Proof. intros. simpl. destruct (Nat.eqb_spec k k'); [contradiction | reflexivity]. Qed.
+Lemma as_lookup_in_keys : forall (A : Type) k (l : list (nat * A)), as_lookup k l <> None -> In k (map fst l).
 Proof.
-  intros. unfold as_path, as_forward, as_init. simpl.
-  rewrite Nat.eqb_refl. simpl. unfold as_backward. simpl. rewrite Nat.eqb_refl. reflexivity.
+  induction l as [| [k' v] l IH]; simpl; intros Hk; [congruence |].
+  destruct (Nat.eqb_spec k k'); [left; now subst | right; auto].
 Qed.
+
+(* ------------------------------------------------------------------ priority queue *)
+Lemma as_pq_min_in : forall l x, as_pq_min x l = x \/ In (as_pq_min x l) l.
+Proof.
+  induction l as [| y l IH]; intros x; simpl; [now left |].
+  destruct (IH (if as_entry_ltb y x then y else x)) as [H | H]; [| now right; right].
+  rewrite H. destruct (as_entry_ltb y x); [right; now left | now left].
+Qed.
+Lemma as_pq_remove_incl : forall x l y, In y (as_pq_remove x l) -> In y l.
+Proof.
+  induction l as [| z l IH]; simpl; intros y Hy; [contradiction |].
+  destruct (as_entry_eqb x z); [now right |].
+  destruct Hy as [-> | Hy]; [now left | right; auto].
+Qed.
+Lemma as_pq_get_some : forall q m rest, as_pq_get q = Some (m, rest) ->
+  In m q /\ (forall y, In y rest -> In y q).
+Proof.
+  intros [| x r] m rest H; simpl in H; [discriminate |].
+  injection H as <- <-. split.
+  - destruct (as_pq_min_in r x) as [-> | Hin]; [now left | now right].
+  - intros y Hy. eapply as_pq_remove_incl; exact Hy.
+Qed.
+
+(* ------------------------------------------------------------------ chains *)
+(* ns = [goal; ...; start], es[i] joins ns[i] and ns[i+1]; [adj p] lists (neighbour, shared edge):
+   each node of the chain is a neighbour of its successor in ns (its parent) through the listed edge *)
+Inductive as_chain (adj : nat -> list (nat * nat)) : list nat -> list nat -> Prop :=
+| as_chain_one : forall a, as_chain adj [a] []
+| as_chain_cons : forall a b e ns es,
+    In (a, e) (adj b) -> as_chain adj (b :: ns) es -> as_chain adj (a :: b :: ns) (e :: es).
+
+Definition as_valid_chain (adj : nat -> list (nat * nat)) (start goal : nat) (ns es : list nat) : Prop :=
+  hd_error ns = Some goal /\ last ns goal = start /\ S (length es) = length ns
+  /\ as_chain adj ns es /\ NoDup ns.
+
+(* the forward-pass invariant on came_from: every recorded node other than start has a recorded parent,
+   it is a neighbour of that parent through the recorded edge, and the parent pointers are acyclic
+   (a rank decreases strictly towards the start: in the forward pass the rank is cost_so_far) *)
+Definition as_cf_inv (adj : nat -> list (nat * nat)) (start : nat) (cf : list (nat * option (nat * nat))) : Prop :=
+  exists rank : nat -> Z,
+  forall n v, n <> start -> as_lookup n cf = Some v ->
+    exists p e, v = Some (p, e) /\ as_lookup p cf <> None /\ In (n, e) (adj p) /\ 0 <= rank p < rank n.
+
+Section Backward.
+  Variable adj : nat -> list (nat * nat).
+  Variable start : nat.
+  Variable cf : list (nat * option (nat * nat)).
+  Variable rank : nat -> Z.
+  Hypothesis Hinv : forall n v, n <> start -> as_lookup n cf = Some v ->
+    exists p e, v = Some (p, e) /\ as_lookup p cf <> None /\ In (n, e) (adj p) /\ 0 <= rank p < rank n.
+
+  Lemma as_backward_chain_aux : forall k n, Z.to_nat (rank n) = k \/ n = start ->
+    (as_lookup n cf <> None \/ n = start) ->
+    exists ns es,
+      (forall fuel, (length ns <= S fuel)%nat -> as_backward_loop fuel cf start n = Some (ns, es))
+      /\ hd_error ns = Some n /\ (forall d, last ns d = start) /\ S (length es) = length ns
+      /\ as_chain adj ns es
+      /\ (forall m, In m ns -> m = start \/ (as_lookup m cf <> None /\ rank m <= rank n))
+      /\ NoDup ns.
+  Proof.
+    induction k as [k IH] using lt_wf_ind. intros n Hk Hrec.
+    destruct (Nat.eq_dec n start) as [-> | Hne].
+    - exists [start], []. repeat split; simpl; auto.
+      + intros fuel _. destruct fuel; simpl; now rewrite Nat.eqb_refl.
+      + constructor.
+      + intros m [<- | []]. now left.
+      + constructor; [intros [] | constructor].
+    - destruct Hrec as [Hrec | ->]; [| contradiction].
+      destruct Hk as [Hk | ->]; [| contradiction].
+      destruct (as_lookup n cf) as [v |] eqn:Hl; [| congruence].
+      destruct (Hinv n v Hne Hl) as (p & e & -> & Hp & Hadj & Hr).
+      destruct (IH (Z.to_nat (rank p)) ltac:(lia) p (or_introl eq_refl) (or_introl Hp))
+        as (ns & es & Hrun & Hhd & Hlast & Hlen & Hch & Hall & Hnd).
+      destruct ns as [| b ns']; [discriminate |]. injection Hhd as ->.
+      exists (n :: p :: ns'), (e :: es). repeat split.
+      + intros fuel Hf. destruct fuel as [| f]; [simpl in Hf; lia |].
+        simpl. destruct (Nat.eqb_spec n start); [contradiction |].
+        rewrite Hl. simpl in Hrun. rewrite (Hrun f) by (simpl in Hf |- *; lia). reflexivity.
+      + intros d. specialize (Hlast d). simpl in Hlast |- *. exact Hlast.
+      + simpl in Hlen |- *. lia.
+      + constructor; assumption.
+      + intros m [<- | Hm].
+        * right. split; [congruence | lia].
+        * destruct (Hall m Hm) as [-> | [Hm1 Hm2]]; [now left | right; split; [assumption | lia]].
+      + constructor; [| assumption].
+        intros Hin. destruct (Hall n Hin) as [-> | [_ Hle]]; [contradiction | lia].
+  Qed.
+End Backward.
+
+(* backward_valid_chain: under the forward-pass invariant the backward pass terminates (the model's fuel
+   1 + len(came_from) is enough), raises nothing, and returns a valid simple chain goal ... start *)
+Lemma as_backward_valid_chain : forall adj start goal cf,
+  as_cf_inv adj start cf -> (as_lookup goal cf <> None \/ goal = start) ->
+  exists ns es, as_backward cf start goal = Some (ns, es) /\ as_valid_chain adj start goal ns es.
+Proof.
+  intros adj start goal cf [rank Hinv] Hg.
+  destruct (as_backward_chain_aux adj start cf rank Hinv _ goal (or_introl eq_refl) Hg)
+    as (ns & es & Hrun & Hhd & Hlast & Hlen & Hch & Hall & Hnd).
+  exists ns, es. split.
+  - unfold as_backward. apply Hrun.
+    (* ns is duplicate-free and all its nodes except possibly start are keys of cf *)
+    destruct (in_dec Nat.eq_dec start ns) as [Hin | Hnin].
+    + (* remove start: the rest injects into the keys *)
+      destruct (in_split _ _ Hin) as (l1 & l2 & ->).
+      assert (Hnd' : NoDup (l1 ++ l2)) by (eapply NoDup_remove_1; exact Hnd).
+      assert (Hincl : incl (l1 ++ l2) (map fst cf)).
+      { intros m Hm. assert (Hm' : In m (l1 ++ start :: l2)).
+        { apply in_app_or in Hm. apply in_or_app. destruct Hm; [now left | right; now right]. }
+        destruct (Hall m Hm') as [-> | [Hrec _]].
+        - exfalso. eapply NoDup_remove_2; eassumption.
+        - now apply as_lookup_in_keys. }
+      pose proof (NoDup_incl_length Hnd' Hincl) as Hle.
+      rewrite map_length in Hle. rewrite app_length in *. simpl. lia.
+    + assert (Hincl : incl ns (map fst cf)).
+      { intros m Hm. destruct (Hall m Hm) as [-> | [Hrec _]]; [contradiction | now apply as_lookup_in_keys]. }
+      pose proof (NoDup_incl_length Hnd Hincl) as Hle. rewrite map_length in Hle. lia.
+  - repeat split; auto.
+Qed.
+
+(* ------------------------------------------------------------------ forward pass *)
+Section Forward.
+  Variable adj : nat -> list (nat * nat).
+  Variable h : nat -> nat -> Z.
+  Variable start goal : nat.
+  Variable early : bool.
+  (* the heuristic is a cost: non-negative on graph edges, positive between distinct adjacent nodes *)
+  Hypothesis Hh : forall a b e, In (b, e) (adj a) -> 0 <= h a b /\ (a <> b -> 0 < h a b).
+
+  (* loop invariant of a_star_search_forward_pass *)
+  Record as_st_inv (st : as_state) : Prop := {
+    si_start : as_lookup start (as_cost st) = Some 0;
+    si_keys : forall n, as_lookup n (as_came st) <> None <-> as_lookup n (as_cost st) <> None;
+    si_nonneg : forall n c, as_lookup n (as_cost st) = Some c -> 0 <= c;
+    si_parent : forall n v, n <> start -> as_lookup n (as_came st) = Some v ->
+        exists p e cp cn, v = Some (p, e) /\ In (n, e) (adj p)
+                          /\ as_lookup p (as_cost st) = Some cp /\ as_lookup n (as_cost st) = Some cn /\ cp < cn;
+    si_frontier : forall p c, In (p, c) (as_frontier st) -> as_lookup c (as_cost st) <> None;
+    si_goal : early = true -> goal <> start -> as_lookup goal (as_came st) = None
+  }.
+
+  Lemma as_init_inv : as_st_inv (as_init start).
+  Proof.
+    unfold as_init. constructor; simpl.
+    - now rewrite Nat.eqb_refl.
+    - intros n. destruct (n =? start)%nat; split; congruence.
+    - intros n c. destruct (n =? start)%nat; intros H; inversion H; lia.
+    - intros n v Hn. destruct (Nat.eqb_spec n start); [contradiction | discriminate].
+    - intros p c [H | []]. inversion H; subst. now rewrite Nat.eqb_refl.
+    - intros _ Hg. destruct (Nat.eqb_spec goal start); [contradiction | reflexivity].
+  Qed.
+
+  (* the invariant as seen from came_from alone (what the backward pass needs) *)
+  Lemma as_st_inv_cf : forall st, as_st_inv st -> as_cf_inv adj start (as_came st).
+  Proof.
+    intros st I.
+    exists (fun n => match as_lookup n (as_cost st) with Some c => c | None => 0 end).
+    intros n v Hn Hl. destruct (si_parent st I n v Hn Hl) as (p & e & cp & cn & -> & Hadj & Hp & Hc & Hlt).
+    exists p, e. repeat split; auto.
+    - apply (si_keys st I). congruence.
+    - rewrite Hp. eapply si_nonneg; eauto.
+    - rewrite Hp, Hc. exact Hlt.
+  Qed.
+
+  (* early return: came_from gets goal |-> (cur, e) without a cost entry *)
+  Lemma as_early_cf : forall st cur e, as_st_inv st -> early = true -> goal <> start ->
+    as_lookup cur (as_cost st) <> None -> In (goal, e) (adj cur) ->
+    as_cf_inv adj start ((goal, Some (cur, e)) :: as_came st).
+  Proof.
+    intros st cur e I He Hgs Hcur Hadj.
+    pose proof (si_goal st I He Hgs) as Hgn.
+    assert (Hgc : as_lookup goal (as_cost st) = None).
+    { destruct (as_lookup goal (as_cost st)) eqn:E; [| reflexivity].
+      exfalso. apply (proj2 (si_keys st I goal)); congruence. }
+    destruct (as_lookup cur (as_cost st)) as [cc |] eqn:Hcc; [| congruence].
+    exists (fun n => if (n =? goal)%nat then cc + 1
+                     else match as_lookup n (as_cost st) with Some c => c | None => 0 end).
+    intros n v Hn Hl. destruct (Nat.eq_dec n goal) as [-> | Hng].
+    - rewrite as_lookup_cons_eq in Hl. injection Hl as <-.
+      exists cur, e. repeat split; auto.
+      + rewrite as_lookup_cons_neq by congruence. apply (si_keys st I). congruence.
+      + destruct (Nat.eqb_spec cur goal); [congruence |]. rewrite Hcc. eapply si_nonneg; eauto.
+      + rewrite Nat.eqb_refl. destruct (Nat.eqb_spec cur goal); [congruence |]. rewrite Hcc. lia.
+    - rewrite as_lookup_cons_neq in Hl by assumption.
+      destruct (si_parent st I n v Hn Hl) as (p & e' & cp & cn & -> & Hadj' & Hp & Hc & Hlt).
+      assert (Hpg : p <> goal) by congruence.
+      exists p, e'. repeat split; auto.
+      + rewrite as_lookup_cons_neq by assumption. apply (si_keys st I). congruence.
+      + destruct (Nat.eqb_spec p goal); [contradiction |]. rewrite Hp. eapply si_nonneg; eauto.
+      + destruct (Nat.eqb_spec p goal); [contradiction |].
+        destruct (Nat.eqb_spec n goal); [contradiction |]. rewrite Hp, Hc. exact Hlt.
+  Qed.
+
+  (* recording nxt |-> (cur, e) with cost nc = cost[cur] + h cur nxt *)
+  Lemma as_update_inv : forall st cur nxt e cc mg,
+    as_st_inv st -> as_lookup cur (as_cost st) = Some cc -> In (nxt, e) (adj cur) ->
+    (early && (nxt =? goal)%nat = false) ->
+    (match as_lookup nxt (as_cost st) with Some old => cc + h cur nxt < old | None => True end) ->
+    as_st_inv (mkAS ((cc + h cur nxt + h nxt goal, nxt) :: as_frontier st)
+                    ((nxt, Some (cur, e)) :: as_came st)
+                    ((nxt, cc + h cur nxt) :: as_cost st) mg).
+  Proof.
+    intros st cur nxt e cc mg I Hcc Hadj Hng Hlt.
+    destruct (Hh cur nxt e Hadj) as [Hh0 Hhpos].
+    pose proof (si_nonneg st I cur cc Hcc) as Hcc0.
+    (* nxt is neither start nor cur *)
+    assert (Hns : nxt <> start).
+    { intros ->. rewrite (si_start st I) in Hlt. lia. }
+    assert (Hnc : nxt <> cur).
+    { intros ->. rewrite Hcc in Hlt. lia. }
+    constructor; simpl.
+    - destruct (Nat.eqb_spec start nxt); [congruence | apply (si_start st I)].
+    - intros n. destruct (Nat.eqb_spec n nxt); [split; congruence | apply (si_keys st I)].
+    - intros n c. destruct (Nat.eqb_spec n nxt); [intros H; inversion H; lia | apply (si_nonneg st I)].
+    - intros n v Hn. destruct (Nat.eqb_spec n nxt) as [-> | Hne].
+      + intros H; injection H as <-.
+        exists cur, e, cc, (cc + h cur nxt). repeat split; auto.
+        * destruct (Nat.eqb_spec cur nxt); [congruence | assumption].
+        * specialize (Hhpos (not_eq_sym Hnc)). lia.
+      + intros Hl. destruct (si_parent st I n v Hn Hl) as (p & e' & cp & cn & -> & Hadj' & Hp & Hc & Hlt').
+        destruct (Nat.eq_dec p nxt) as [-> | Hpn].
+        * (* the parent's cost just decreased (or it is re-recorded): still below cn *)
+          exists nxt, e', (cc + h cur nxt), cn. repeat split; auto.
+          -- now rewrite Nat.eqb_refl.
+          -- destruct (Nat.eqb_spec n nxt); [contradiction | assumption].
+          -- rewrite Hp in Hlt. lia.
+        * exists p, e', cp, cn. repeat split; auto.
+          -- destruct (Nat.eqb_spec p nxt); [contradiction | assumption].
+          -- destruct (Nat.eqb_spec n nxt); [contradiction | assumption].
+    - intros p c [H | H].
+      + inversion H; subst. rewrite Nat.eqb_refl. congruence.
+      + destruct (Nat.eqb_spec c nxt); [congruence | eapply (si_frontier st I); eauto].
+    - intros He Hgs. destruct (Nat.eqb_spec goal nxt) as [<- | Hne].
+      + rewrite He, Nat.eqb_refl in Hng. discriminate.
+      + apply (si_goal st I He Hgs).
+  Qed.
+
+  Lemma as_st_inv_margin : forall st mg, as_st_inv st ->
+    as_st_inv (mkAS (as_frontier st) (as_came st) (as_cost st) mg).
+  Proof. intros st mg I. destruct I; constructor; simpl; auto. Qed.
+
+  (* the loop over the neighbours (pathfinding.py:37-48) *)
+  Lemma as_relax_spec : forall nbrs cur st,
+    as_st_inv st -> as_lookup cur (as_cost st) <> None -> cur <> goal \/ goal = start -> (goal = start -> False) \/ early = false \/ True ->
+    (forall x, In x nbrs -> In x (adj cur)) ->
+    match as_relax adj h goal early cur nbrs st with
+    | AS_Continue st' => as_st_inv st'
+    | AS_Return st' => early = true /\ exists st0 e, as_st_inv st0 /\ as_lookup cur (as_cost st0) <> None /\ In (goal, e) (adj cur)
+                         /\ as_came st' = (goal, Some (cur, e)) :: as_came st0
+    | AS_KeyError => False
+    end.
+  Proof.
+    induction nbrs as [| [nxt e] r IH]; intros cur st I Hcur Hcg Hdummy Hsub; simpl.
+    - exact I.
+    - destruct (early && (nxt =? goal)%nat) eqn:Heg.
+      + apply andb_prop in Heg as [He Hng]. apply Nat.eqb_eq in Hng. subst nxt.
+        split; [assumption |]. exists st, e. simpl. repeat split; auto. apply Hsub. now left.
+      + destruct (as_lookup cur (as_cost st)) as [cc |] eqn:Hcc; [| congruence].
+        assert (Hadj : In (nxt, e) (adj cur)) by (apply Hsub; now left).
+        assert (Hsub' : forall x, In x r -> In x (adj cur)) by (intros x Hx; apply Hsub; now right).
+        destruct (as_lookup nxt (as_cost st)) as [old |] eqn:Hold.
+        * destruct (Z.ltb_spec (cc + h cur nxt) old) as [Hlt | Hge].
+          -- apply IH; auto.
+             ++ apply as_update_inv; auto. now rewrite Hold.
+             ++ simpl. destruct (Nat.eqb_spec cur nxt); congruence.
+          -- apply IH; auto.
+             ++ now apply as_st_inv_margin.
+             ++ simpl. congruence.
+        * apply IH; auto.
+          -- apply as_update_inv; auto. now rewrite Hold.
+          -- simpl. destruct (Nat.eqb_spec cur nxt); congruence.
+  Qed.
+
+  (* forward_invariant: whatever the budget and the stopping mode, a returned came_from satisfies the
+     invariant and records the goal; cost_so_far[current] never raises KeyError *)
+  Lemma as_loop_spec : forall fuel st, as_st_inv st ->
+    match as_loop adj h goal early fuel st with
+    | AS_Found cf _ _ => as_cf_inv adj start cf /\ (as_lookup goal cf <> None)
+    | AS_NotFound _ => True
+    | AS_Err => False
+    end.
+  Proof.
+    induction fuel as [| f IH]; intros st I; simpl; [exact Logic.I |].
+    destruct (as_pq_get (as_frontier st)) as [[[p cur] rest] |] eqn:Hget; [| exact Logic.I].
+    destruct (as_pq_get_some _ _ _ Hget) as [Hin Hrest].
+    pose proof (si_frontier st I p cur Hin) as Hcur.
+    destruct (Nat.eqb_spec cur goal) as [-> | Hcg].
+    - split; [now apply as_st_inv_cf | now apply (si_keys st I)].
+    - set (st1 := mkAS rest (as_came st) (as_cost st) (as_pop_margin (as_margin st) p rest)).
+      assert (I1 : as_st_inv st1).
+      { destruct I; constructor; simpl; auto. intros p' c' H'. eapply si_frontier0. apply Hrest. exact H'. }
+      pose proof (as_relax_spec (adj cur) cur st1 I1 Hcur (or_introl Hcg) (or_intror (or_intror Logic.I)) (fun x H => H)) as Hr.
+      destruct (as_relax adj h goal early cur (adj cur) st1) as [st' | st' |].
+      + apply IH. exact Hr.
+      + destruct Hr as (He & st0 & e & I0 & Hc0 & Hadj & Hcame). rewrite Hcame. split.
+        * destruct (Nat.eq_dec goal start) as [Hgs | Hgs].
+          -- (* goal = start was popped first, so this branch has cur <> start = goal ... still fine:
+                came_from[start] is overwritten, the invariant only speaks about nodes <> start *)
+             destruct (as_st_inv_cf st0 I0) as [rank Hrk]. exists rank.
+             intros n v Hn Hl. rewrite as_lookup_cons_neq in Hl by congruence.
+             destruct (Hrk n v Hn Hl) as (p' & e' & -> & Hp' & Hadj' & Hr').
+             exists p', e'. repeat split; auto; try lia.
+             destruct (Nat.eq_dec p' goal) as [-> | Hpg]; [rewrite as_lookup_cons_eq; congruence |].
+             rewrite as_lookup_cons_neq by assumption. assumption.
+          -- apply as_early_cf; auto.
+        * rewrite as_lookup_cons_eq. congruence.
+      + exact Hr.
+  Qed.
+
+  Lemma as_forward_invariant : forall maxits,
+    match as_forward adj h start goal early maxits with
+    | AS_Found cf _ _ => as_cf_inv adj start cf /\ (as_lookup goal cf <> None)
+    | AS_NotFound _ => True
+    | AS_Err => False
+    end.
+  Proof. intros. unfold as_forward. apply as_loop_spec. apply as_init_inv. Qed.
+
+  (* the public function: never crashes; a returned path is a valid simple chain from goal back to start *)
+  Lemma as_path_valid : forall maxits,
+    match as_path adj h start goal early maxits with
+    | AS_Path ns es _ => as_valid_chain adj start goal ns es
+    | AS_PathFindingError _ => True
+    | AS_Crash => False
+    end.
+  Proof.
+    intros maxits. unfold as_path. pose proof (as_forward_invariant maxits) as Hf.
+    destruct (as_forward adj h start goal early maxits) as [cf cs mg | mg |]; auto.
+    destruct Hf as [Hinv Hg].
+    destruct (as_backward_valid_chain adj start goal cf Hinv (or_introl Hg)) as (ns & es & -> & Hv).
+    exact Hv.
+  Qed.
+End Forward.
